@@ -86,11 +86,15 @@ class C19(Prop):
     id = "C19"
     level = "other"
     design_ref = "§8 C19"
-    level_text = ("Lean: verified embedding checker over exact rationals ('every voter ranks by strictly increasing "
-                  "distance'), model of the single-crossing pre-check and colouring stage. Exactness of the verdict is "
-                  "compared with an exact z3 oracle whose positive answers are re-checked in Lean (tested, not proved). "
-                  "The pinned code carries known findings D17 (single order; alternatives left grey by the colouring "
-                  "never enter the LP), listed in known_findings.json")
+    level_text = ("Lean: statement-faithful model of everything up to the LP (single-crossing pre-check, colouring, axis from "
+                  "colours, restricted preferences, constraint generation; same decisions, grey set, axis and constraint "
+                  "multiset as the real code on 9 000 profiles and on every run here) with theorems: every feasible point "
+                  "of the generated LP realises the votes restricted to the coloured alternatives (lp_sound), the LP is "
+                  "feasible iff such an embedding exists along the axis (lp_feasible_iff), and when no alternative is grey a "
+                  "feasible point realises the full votes (nogrey_partial); verified rational embedding checker. Exactness "
+                  "of the verdict is compared with an exact z3 oracle whose positive answers are re-checked in Lean "
+                  "(tested, not proved). The pinned code carries known findings D17 (single order; grey alternatives never "
+                  "enter the LP), listed in known_findings.json")
     level_note = ("Lean kernel + standard axioms for the checker; z3 (linear real arithmetic) is trusted for 'no axis is "
                   "feasible'; CBC solves the library's LP; floats are converted exactly to rationals")
     technique = "Lean-verified rational embedding checker + Lean model of the colouring stage; exact-oracle differential testing"
